@@ -17,9 +17,9 @@
 EXTENDS VerbsAggregateCases
 VARIABLE x
 \* the streams of a family grow record by record (so that TLC's workers share the tree of streams)
-Fams == {"cnt", "stat", "int", "merge", "mergec", "frac", "hist", "fill", "pct"}
+Fams == {"cnt", "stat", "int", "merge", "mergec", "frac", "hist", "fill", "pct", "dsl"}
 RUof(f) == CASE f = "cnt" -> RUcnt [] f = "stat" -> RUstat [] f = "int" -> RUint [] f = "merge" -> RUmerge [] f = "mergec" -> RUmergec
-             [] f = "frac" -> RUfrac [] f = "hist" -> RUhist [] f = "fill" -> RUfill [] f = "pct" -> RUpct
+             [] f = "frac" -> RUfrac [] f = "hist" -> RUhist [] f = "fill" -> RUfill [] f = "pct" -> RUpct [] f = "dsl" -> RUdsl
 LenOf(f) == IF f \in {"merge", "mergec"} THEN MaxLen - 1 ELSE MaxLen
 Init == x \in {[fam |-> f, s |-> <<>>] : f \in Fams}
 Next == Len(x.s) < LenOf(x.fam) /\ \E r \in RUof(x.fam) : x' = [fam |-> x.fam, s |-> Append(x.s, r)]
@@ -137,12 +137,36 @@ LawsPct(s) ==
         /\ \A k \in 0..(Len(b) - 2) : LeV(SortedAt(b, k), SortedAt(b, k + 1))
         /\ \A i \in 1..Len(b) : \E k \in 0..(Len(b) - 1) : SortedAt(b, k) = b[i]
 
+\* ---- the DSL functions agree with stats1 on collections without empty values, and count = count + null_count otherwise
+LawsDsl(s) ==
+  /\ \A c \in CfgDsl : SelfAccepting(c, s)
+  /\ LET accs == A1 \o A2 \o A3 \o Accs(<<"minlen", "maxlen", "mean">>)
+         d == OnePat(ExpDsl(Cfg("dsl-stats", <<>>, FX, accs, 0, <<>>), s)[1])
+         st == ExpStats1(S1c(<<>>, FX, accs), s, "keyed")
+         vs == Vals(s, <<>>, <<>>, "x")
+     IN /\ Len(d) = Len(accs)
+        /\ (Len(vs) >= 2 /\ NoEmpty(vs)) => \A n \in 1..Len(accs) :
+              LET k == AccName(accs[n]) IN
+              (k \notin {"min", "max"} /\ d[n][3] = "req") => PatGet(OnePat(st[1]), "x_" \o k) = Req("x_" \o k, d[n][2])
+        /\ st # <<>> => NumOf[PatGet(d, "count")[2]] = NumOf[FieldOf(st[1], "x_count")] + NumOf[FieldOf(st[1], "x_null_count")]
+
 \* ---- step, top (integer data)
 StepC(g, a) == Cfg("step", g, FX, a, 0, <<>>)
 SkipRd == [lag |-> "skip", ff |-> "from_first"]
 LitRd == [lag |-> "literal", ff |-> "from_first"]
 LawsInt(s) ==
-  /\ \A c \in CfgStep \cup {c \in CfgTop : ~HasOpt(c, "-a")} : SelfAccepting(c, s)
+  /\ \A c \in CfgStep \cup CfgWin \cup {c \in CfgTop : ~HasOpt(c, "-a")} : SelfAccepting(c, s)
+  \* a window at least as long as the stream: the last record of each group carries the whole-stream statistics; the two
+  \* readings of the window agree when no record of a group lacks the field
+  /\ \A g \in {<<>>, G1} :
+       LET cw == Cfg("stats1", g, FX, A1, Len(s) + 1, <<>>)
+           w == ExpStats1W(cw, s, "records")
+           st == ExpStats1(S1c(g, FX, A1), s, "keyed")
+       IN /\ Len(w) = Len(s)
+          /\ ~Gap(cw, s) => ExpStats1W(cw, s, "contributing") = w
+          /\ \A i \in 1..Len(s) : (HasAll(s[i], g) /\ \A j \in (i + 1)..Len(s) : ~SameGroup(s, g, i, j)) =>
+               \E n \in 1..Len(st) : (g = <<>> \/ FieldOf(st[n], "g") = Get(s[i], "g"))
+                  /\ \A k \in {"x_count", "x_sum"} : FieldOf(st[n], k) = FieldOf(w[i], k)
   /\ \A g \in {<<>>, G1} :
        LET all == Accs(<<"counter", "rsum", "shift", "shift_lead", "delta", "from-first", "rprod">>)
            pat == ExpStep(StepC(g, all), s, SkipRd)
@@ -248,4 +272,5 @@ Laws ==
        [] x.fam = "frac" -> LawsFrac(x.s)
        [] x.fam = "hist" -> LawsHist(x.s)
        [] x.fam = "fill" -> LawsFill(x.s)
+       [] x.fam = "dsl" -> LawsDsl(x.s)
 =============================================================================
